@@ -15,7 +15,9 @@ def _c15_out_kind(o):
             return "cs/csa/csm: refresh with a failed keyspace fetch, older version reused"
         return "cs/csa/csm: refresh history, every fetch ok"
     if o.startswith("learn "):
-        return "e2e learn"
+        f = dict(w.split("=", 1) for w in o.split(" ")[1:] if "=" in w)
+        return "e2e learn (malformed payloads: %s; taught by the response after a re-prepare: %s)" % (
+            "yes" if f.get("malformed", "0") != "0" else "no", "yes" if f.get("taught-after-reprepare", "0") != "0" else "no")
     if o and o[0].isdigit():
         return "exh digest"
     if "panic" in o:
@@ -24,7 +26,7 @@ def _c15_out_kind(o):
 
 
 PROPS["C15"] = dict(
-    level_text="Theorems (Props/C15.lean) prove, for every history of inserts and maintenance steps of any length over unbounded tokens: the tablet list stays sorted with prev.last < next.first and first <= last (so the standard library's binary search - modelled loop by loop - is applied to a partitioned list: its precondition is a lemma, not an assumption); tablet_for_token answers exactly the latest insert covering the token unless a later insert overlapped it or maintenance discarded it (refinement to a history-based spec; never a stale answer); an insert removes exactly the overlapping tablets; per-datacenter replicas are the order-preserving filter of the full replica list; an accepted payload (a, b] becomes [a+1, b] with a < b and is rejected iff b <= a. The table-level theorems are lifted to the TabletsInfo level (every table of the map is the run of its own valid sub-history: gate on removed/recreated/has_unknown_replicas, dropped tables, empty entries) and to the ClusterState level: for every history of learnt tablets and metadata refreshes (old peers -> new peers with arbitrary overlap, hosts replaced in one refresh, Node objects re-created) every replica answered by any lookup is a host of the new known_nodes and the Node object registered there, and tablets untouched by the refresh are preserved; one update_tablets call with a whole batch is the sequence of its single learns in order (learn_batch_eq_foldl, brun_eq_crun: latest wins inside a batch). The models are tied to tablets.rs and cluster/state.rs by a differential run (exhaustive histories over a 6-token universe, long random histories over full i64, maintenance, TabletsInfo, refresh histories on the real ClusterState, payload bytes) with a brute-force history shadow as oracle.",
+    level_text="Theorems (Props/C15.lean), for every history of any length over unbounded tokens. TABLE level: the tablet list stays sorted with prev.last < next.first and first <= last (the standard library's binary search - modelled loop by loop - is therefore applied to a partitioned list: its precondition is a lemma); tablet_for_token answers exactly the latest insert covering the token, as later maintenance left it (replicas included), unless a later insert overlapped it or maintenance discarded it - then nothing (lookup_refines, lookup_answer_is_latest, lookupSpec_eq_survive); an insert removes exactly the overlapping tablets; per-datacenter replicas are the order-preserving filter of the full list; an accepted payload (a, b] becomes [a+1, b] with a < b, rejected iff b <= a, down to the bytes. TABLETSINFO level: every table of the map is the table-level run of its own valid sub-history (info_projection: the gate on removed / recreated / has_unknown_replicas, dropped tables, empty entries; FlagsHonest), so every table-level theorem holds for every table; tables AND materialized views of tablet keyspaces are kept (maintenanceKs_entry_iff). CLUSTERSTATE level (KState/KOp/krun: batches, refreshes with the raw per-keyspace fetch result, topology-only refreshes, the state's keyspaces threaded by the model): every replica any lookup serves after any refresh is a host of the new known_nodes and the Node object registered there (stateOk_refresh, refresh_lookups_current; hosts removed, added, replaced in one refresh, Node objects re-created, all four arms of calculate_new_topology); what a refresh does to one table is exactly the per-tablet maintenance of its old tablets (refresh_table_tablets); a keyspace whose fetch FAILED keeps its old version and its tablets, over all reachable states (krun_failed_fetch_keeps_tablets, krun_kss_nodup), without an old version it is dropped with its tablets (refresh_fetch_failed_no_old), a successful fetch keeps exactly the tables and views that still exist in a tablet keyspace (refresh_ok_fetch_keeps_exactly / _drops_others); one update_tablets call is its single learns in order (brun_eq_crun, batch_lookup_refines); datacenter restriction through the locator's tablet branch (locator_dc_restrict); what one response can teach and under which table (tabletFromResponse_some / _malformed / _nothing). The models are tied to tablets.rs, cluster/state.rs, locator/mod.rs and network/connection.rs by a differential run - exhaustive histories over a 6-token universe, long random histories over full i64, maintenance, TabletsInfo with views, payload bytes, refresh histories on the real ClusterState in three host-filter modes (cs / csa / csm) with two keyspaces, failed fetches, batches and the public readers get_token_endpoints / get_endpoints compared with the locator - and by an end-to-end family on a real Session (e2e learn: three tables, malformed payloads, re-prepared statements), each judged by a brute-force history shadow.",
     level_note="Trusted: Lean kernel + {propext, Classical.choice, Quot.sound}; hand-written models Model/Tablets.lean, Model/TabletsRefresh.lean (tie = differential harness through the cfg(scylla_verif) pass-throughs VerifTablets / raw_tablet_from_payload / cluster_state_general / cluster_state_filtered / cluster_refresh_topology[_accepting|_filtered] / ClusterState::verif_update_tablets / verif_tablet_tables; the connection's learning glue by an end-to-end family on a real Session (e2e learn)); Arc<Node> identity modelled by a generation counter; HashMaps as association lists (only looked up by key, dumps sorted).",
     lean_modules=["ScyllaVerif.Props.C15"],
     rule="case = one history (tab), one refresh history on a ClusterState (cs: rejecting host filter, csa: accepting, csm: per-peer verdicts), one end-to-end learning history on a real Session (e2e learn), one payload cell (payload) or one exhaustive subtree (exh); distinct case lines whose implementation output contains at least one answered lookup / non-empty dump / accepted-or-rejected payload / visited history count as non-trivial",
